@@ -533,6 +533,11 @@ func wsScripts(seed int64, thorough bool, randomN int) []*wsScript {
 	var out []*wsScript
 	subs := []string{gws, gtws}
 	n := 0
+	// a client that negotiates only the application's own subprotocol: gqlgen has no message
+	// exchanger for it and must end the connection itself
+	for _, fr := range []string{`{"type":"connection_init"}`, `{"type":"start","id":"1","payload":{"query":"{ q1 }"}}`, `x`} {
+		out = append(out, &wsScript{Class: "ws-foreign-subprotocol", Sub: "verif-foreign", State: "pre-init", Frames: []wsFrame{{Kind: "text", Data: []byte(fr)}}})
+	}
 	// every message type in every state on both subprotocols, payloads of every JSON kind
 	for _, sub := range subs {
 		for _, state := range wsStates {
